@@ -16,6 +16,9 @@ pub enum Op {
     Flush,
     /// advance the virtual clock by this many milliseconds
     Advance(i64),
+    /// a record (payload of this many bytes) whose own write is made to fail (injected I/O error
+    /// at the hook point "write"): nothing of it reaches the file, the writer keeps running
+    FailWrite(usize),
 }
 
 /// record lengths biased to the boundaries that matter: the size limit `n` (line ending
@@ -59,11 +62,26 @@ pub fn ops_strat(
     with_time: bool,
     max_ops: usize,
 ) -> BoxedStrategy<Vec<Op>> {
+    ops_strat_f(n, cap, le, with_time, max_ops, false)
+}
+
+/// `with_failures`: the history may contain records whose own write fails (sync modes only)
+pub fn ops_strat_f(
+    n: Option<u64>,
+    cap: Option<usize>,
+    le: usize,
+    with_time: bool,
+    max_ops: usize,
+    with_failures: bool,
+) -> BoxedStrategy<Vec<Op>> {
     let mut opts: Vec<(u32, BoxedStrategy<Op>)> = vec![
         (10, len_strat(n, cap, le).prop_map(Op::Write).boxed()),
         (2, Just(Op::Rotate).boxed()),
         (1, Just(Op::Flush).boxed()),
     ];
+    if with_failures {
+        opts.push((1, len_strat(n, cap, le).prop_map(Op::FailWrite).boxed()));
+    }
     if with_time {
         opts.push((4, crate::vtime::advance_ms_strat().prop_map(Op::Advance).boxed()));
     }
@@ -77,6 +95,8 @@ pub struct Exec<'a> {
     pub seq: u32,
     pub src: u32,
     pub virt: bool,
+    /// number of records whose write was made to fail
+    pub failed_writes: u32,
 }
 
 impl<'a> Exec<'a> {
@@ -93,6 +113,7 @@ impl<'a> Exec<'a> {
             seq: 0,
             src: 0,
             virt,
+            failed_writes: 0,
         }
     }
 
@@ -114,6 +135,28 @@ impl<'a> Exec<'a> {
                 let now = self.now();
                 self.model.write(&line, now);
                 sess.write(&p);
+            }
+            Op::FailWrite(len) => {
+                if self.cfg.mode.is_async() {
+                    // the writer thread cannot be synchronised with the fault window
+                    return self.apply(sess, &Op::Write(*len));
+                }
+                let p = payload(self.src, self.seq, *len);
+                self.seq += 1;
+                let now = self.now();
+                // the rotation decision precedes the write; the record itself leaves no bytes
+                self.model.write_failed(now);
+                let hh = h();
+                let prev = hh.mode.load(std::sync::atomic::Ordering::SeqCst);
+                {
+                    let mut ps = hh.points.lock().unwrap_or_else(|p| p.into_inner());
+                    let occ = ps.counts.get("write").copied().unwrap_or(0);
+                    ps.faults.insert(("write".to_string(), occ), std::io::ErrorKind::Other);
+                }
+                hh.set_mode(crate::hooks::MODE_FAULT);
+                sess.write(&p);
+                hh.set_mode(prev);
+                self.failed_writes += 1;
             }
             Op::Rotate => {
                 let now = self.now();
